@@ -25,7 +25,7 @@ def _char_at(n, did):
 def check_cursor(ctx, rule, fn, param="s"):
     """B7: every advance of the NUL-terminated cursor skips only characters known to be non-NUL, and
     every look-ahead s[k] is preceded by knowledge that s[0..k) are non-NUL."""
-    ps = [p for p in fn.params() if p["n"] == param]
+    ps = [p for p in fn.params() if p["t"].replace(" ", "") == "constchar*"]
     if not ps:
         raise AnalysisBroken("anchor vanished: cursor parameter %s of %s" % (param, fn.qn))
     did = ps[0]["d"]
@@ -308,7 +308,7 @@ def check_int_conversion_table(ctx, unit):
     if not fs:
         raise AnalysisBroken("anchor vanished: do_printf_ints")
     for f in fs:
-        szp = [p["d"] for p in f.params() if p["n"] == "szmod"]
+        szp = [p["d"] for p in f.params() if "printf_size_mod" in p["t"]]
         if not szp:
             raise AnalysisBroken("anchor vanished: szmod parameter")
         table = {}
@@ -372,7 +372,7 @@ def check_agent_discipline(ctx, unit):
     ctx.rule("N.agent-result", "every call of the printf agent returns an expected that is tested in the same step and "
              "propagated on failure before the cursor moves", 3)
     for f in unit.fns(uq="frg::printf_format"):
-        ag = [p["d"] for p in f.params() if p["n"] == "agent"]
+        ag = [f.params()[0]["d"]]
         calls = sorted([n for n in f.events() if n.kind == "CXXOperatorCallExpr" and n.args and _is_var(n.args[0], ag[0])],
                        key=lambda n: _lk(n.loc))
         if len(calls) < 3:
